@@ -88,3 +88,21 @@ package pipeline
 //@   loop 1
 //@     modifies nothing
 //@     invariant forall k string :: seen(k) ==> typeis(n.Fields[k], float64) || typeis(n.Fields[k], int64) || typeis(n.Fields[k], bool) || typeis(n.Fields[k], string)
+
+// ---------------------------------------------------------------- influxql.go: count (C11)
+// "count equals the number of points of exactly that batch/group": the library's reducers
+// accumulate INTO the point they are given, so every reduce context starts from a zero point of
+// its own (allocated by the constructor closure for that context, value 0) -- never from a point
+// shared with an earlier batch or another group.
+//@ func (*chainnode).Count$1
+//@   props C11
+//@   guardcall NewFloatFuncIntegerReducer#1: arg1 != nil && fresh(arg1) && arg1.Value == 0
+//@ func (*chainnode).Count$2
+//@   props C11
+//@   guardcall NewIntegerFuncReducer#1: arg1 != nil && fresh(arg1) && arg1.Value == 0
+//@ func (*chainnode).Count$3
+//@   props C11
+//@   guardcall NewStringFuncIntegerReducer#1: arg1 != nil && fresh(arg1) && arg1.Value == 0
+//@ func (*chainnode).Count$4
+//@   props C11
+//@   guardcall NewBooleanFuncIntegerReducer#1: arg1 != nil && fresh(arg1) && arg1.Value == 0
